@@ -16,6 +16,9 @@ BUILT = {
  "C05": ("engine-a", "exploration", "stateful property testing with close/reopen steps, state-before-close = state-after-open relation",
          "Histories on real files cut by drop+reopen in the four open modes with same/larger/absent capacity; state tuple, free list and all handed-out bytes compared across each reopen; shadow map carried over so later allocations are checked against pre-close live ranges.",
          "tmpfs files; durability (sync_all) not observable in-process", "5/C05"),
+ "C06": ("engine-a", "fault_enumeration", "crash-point enumeration: memory() snapshot before every atomic access of every operation (verif hook), each reopened with map_mut and driven by a generated post-crash history",
+         "One generated history is executed once while every atomic step is recorded as a crash point (copy of memory() = what a MAP_SHARED file holds at that instant). quick evaluates <= 32 points per history (all steps of one free-list operation + a sample), thorough all of them: reopen, cursor range, pre-crash live bytes, then a generated post-crash history with the pre-crash live ranges in the shadow map and a no-progress budget for termination.",
+         "crash = page cache at that instant (the statement's model); Vec+unify memory() stands for the file bytes (equivalence checked by C16 and by the 10% file/anon share)", "5/C06"),
  "C08": ("engine-a", "exploration", "stateful property testing with dirty-fill owners, all-zero predicate at alloc_bytes return",
          "Every owner dirties its range; every alloc_bytes/alloc_bytes_owned return is checked byte-for-byte for zero across fresh, rewound, top-released, recycled and reopened space.",
          "same as C01", "5/C08"),
